@@ -1,8 +1,10 @@
 SPECIFICATION Spec
 CONSTANTS
   Versions <- VersionsAll
+  FullVersions <- VersionsAll
   Family = "raw"
   FullOffsets <- Off0
-  LiteOffsets <- Off12345
+  LiteOffsets <- Off48
+  AllOnlyOffsets <- OffOthers
 INVARIANTS TypeOK PExact PIdempotent PCore PIdentity PModule PSanity Emit
 CHECK_DEADLOCK FALSE
